@@ -135,6 +135,12 @@ pub struct BTreeTable {
 }
 
 impl BTreeTable {
+	/// Verification hook: apply `f` to the value tables of this column.
+	#[cfg(pdb_verif)]
+	pub fn verif_with_value_tables<R>(&self, f: impl FnOnce(&[ValueTable]) -> R) -> R {
+		f(&self.tables.read())
+	}
+
 	pub fn open(
 		id: ColId,
 		values: Vec<ValueTable>,
